@@ -22,9 +22,12 @@ lose the `c` (const) suffix (const-ness is C08's tie); data literals are rewritt
 `lit(num/den)` (`0.5f`, `2.0`, `((int8_t) 3)`); a redundant pair of parentheses around a whole
 right-hand side is NOT removed — the model prints the same parentheses as the real code.
 
+Calls: every function the backend emits for the compile (the procedure and its transitive
+non-instruction callees, each compiled by its own `Compiler`) is compared with the model's output
+for that procedure; `modOK` / `freeOK` are those of the target including its callees.
 Skipped (counted by reason): procedures the real backend refuses (`exo-compile-exception:*`),
-and what the model does not cover: calls (hence instructions, window / scalar arguments),
-externs, memories other than DRAM, more than one precision / casts.  The Lean side decides
+and what the model does not cover: calls of instruction procedures, data expressions as
+arguments, externs, memories other than DRAM, more than one precision / casts.  The Lean side decides
 `unsupported:*` for what it can see (calls, externs); the Python side decides what the export
 drops (memories, precisions, casts).
 """
@@ -81,7 +84,7 @@ class _Capture:
 
 
 def _coverage(ir):
-    """what the export drops: memories and precisions.  Returns the single C element type."""
+    """what the export drops: memories and precisions.  Returns the set of C element types."""
     from exo.core.LoopIR import LoopIR, T
     from exo.core.memory import DRAM
 
@@ -112,7 +115,11 @@ def _coverage(ir):
     def stmts(ss):
         for s in ss:
             if isinstance(s, LoopIR.Call):
-                raise _Skip("unsupported:call")
+                if s.f.instr is not None:
+                    raise _Skip("unsupported:instr-call")
+                for a in s.args:
+                    expr(a)
+                continue
             if isinstance(s, (LoopIR.Assign, LoopIR.Reduce)):
                 if s.type.basetype() != s.rhs.type.basetype():
                     raise _Skip("unsupported:cast")
@@ -145,9 +152,7 @@ def _coverage(ir):
     if ir.instr is not None:
         raise _Skip("unsupported:instr")
     stmts(ir.body)
-    if len(types) > 1:
-        raise _Skip("unsupported:mixed-precision")
-    return next(iter(types)) if types else "float"
+    return types
 
 
 def _body_of(ctext, name):
@@ -231,60 +236,71 @@ def check_proc_full(exo_proc, driver=None):
     if len(target) != 1:
         res["why"] = "no-unique-public-compiler-instance"
         return res
-    ir, comp = target[0]
+    # every function the backend emitted for this compile: the procedure itself and its (transitive) callees
+    units = []
+    types = set()
     try:
-        ctype = _coverage(ir)
-        body = _body_of(ctext, name)
-        body = body[_n_pred_lines(ir):]
-        pj = export_ir.exp_proc(ir, {})
+        for (ir, comp, pub) in cap.seen:
+            types |= _coverage(ir)
+            fname = str(ir.name)
+            body = _body_of(ctext, fname)[_n_pred_lines(ir):]
+            bounds = []
+            for sy, b in dict(comp.range_env.env).items():
+                lo, hi = b if b is not None else (None, None)
+                bounds.append([export_ir.sym(sy), lo, hi])
+            units.append((fname, pub and fname == name, export_ir.exp_proc(ir, {}), bounds, body))
+        if len(types) > 1:
+            raise _Skip("unsupported:mixed-precision")
     except _Skip as e:
         res["why"] = e.why
         return res
     except export_ir.ExportError as e:
         res["why"] = f"export:{e}"
         return res
+    ctype = next(iter(types)) if types else "float"
     if ctype not in SHORT:
         res["why"] = "unsupported:ctype:" + ctype
         return res
-    bounds = []
-    for s, b in dict(comp.range_env.env).items():
-        lo, hi = b if b is not None else (None, None)
-        bounds.append([export_ir.sym(s), lo, hi])
-    req = {"op": "comp", "proc": pj, "bounds": bounds, "ctype": ctype, "short": SHORT[ctype]}
+    cb = [[fname, bounds] for (fname, _t, _pj, bounds, _b) in units]
     d = driver or _get_driver()
-    raw = d.ask(json.dumps(req))
-    try:
-        ans = json.loads(raw)
-    except ValueError:
-        raise common.InfraError(f"C02S driver answered no JSON: {raw[:300]}")
-    if "bad" in ans:
-        raise common.InfraError(f"C02S driver: {ans['bad']}")
-    if "unsupported" in ans:
-        res["why"] = ans["unsupported"]
-        return res
-    real = canon(body, True)
-    res["real"] = real
-    if "raise" in ans and "simplify_cir:float" in str(ans["raise"]) and any(
-            re.search(r"\[[^\]]*(lit\(|\d\.\d)", l) for l in real):
-        # the model's simplify_cir has no float constants: `Const / Const` folded with Python's true division (finding F10,
-        # reported by C02/C15 through gcc: "array subscript is not an integer"); the real compiler prints the float
-        res["why"] = "F10:float-folded-index-constant"
-        return res
-    if "raise" in ans:
-        res["status"] = "mismatch"
-        res["why"] = "model-raises"
-        res["mismatches"] = [f"{name}: the model says the real compiler raises ({ans['raise']}) but it emitted code"]
-        return res
-    model = canon(ans["ok"], False)
-    res["model"] = model
-    res["modOK"] = ans["modOK"]
-    res["freeOK"] = ans.get("freeOK")
     mm = []
-    for k in range(max(len(real), len(model))):
-        a = real[k] if k < len(real) else "<missing>"
-        b = model[k] if k < len(model) else "<missing>"
-        if a != b:
-            mm.append(f"{name}: body line {k}: real `{a}` model `{b}`")
+    units.sort(key=lambda u: not u[1])   # the target first
+    for (fname, is_target, pj, bounds, body) in units:
+        req = {"op": "comp", "proc": pj, "bounds": bounds, "cb": cb, "ctype": ctype, "short": SHORT[ctype]}
+        raw = d.ask(json.dumps(req))
+        try:
+            ans = json.loads(raw)
+        except ValueError:
+            raise common.InfraError(f"C02S driver answered no JSON: {raw[:300]}")
+        if "bad" in ans:
+            raise common.InfraError(f"C02S driver: {ans['bad']}")
+        if "unsupported" in ans:
+            res["why"] = ans["unsupported"]
+            return res
+        real = canon(body, True)
+        if "raise" in ans and "simplify_cir:float" in str(ans["raise"]) and any(
+                re.search(r"\[[^\]]*(lit\(|\d\.\d)", l) for l in real):
+            # the model's simplify_cir has no float constants: `Const / Const` folded with Python's true division (finding
+            # F10, reported by C02/C15 through gcc: "array subscript is not an integer"); the real compiler prints the float
+            res["why"] = "F10:float-folded-index-constant"
+            return res
+        if "raise" in ans:
+            res["status"] = "mismatch"
+            res["why"] = "model-raises"
+            res["mismatches"] = [f"{fname}: the model says the real compiler raises ({ans['raise']}) but it emitted code"]
+            return res
+        model = canon(ans["ok"], False)
+        if is_target:
+            res["real"] = real
+            res["model"] = model
+            res["modOK"] = ans["modOK"]       # of the target INCLUDING its callees (the model compiles them inside the call)
+            res["freeOK"] = ans.get("freeOK")
+        for k in range(max(len(real), len(model))):
+            a = real[k] if k < len(real) else "<missing>"
+            b = model[k] if k < len(model) else "<missing>"
+            if a != b:
+                mm.append(f"{fname}: body line {k}: real `{a}` model `{b}`")
+    res["functions"] = [u[0] for u in units]
     res["mismatches"] = mm
     res["status"] = "mismatch" if mm else "covered"
     return res
